@@ -388,7 +388,17 @@ func runPhase(c *mon.Case) {
 	rb := drain(ch)
 	checkResults(c, pc, rb, fmt.Sprintf("cpus=%d", cpusB))
 	ka, kb := sortedKeys(ra), sortedKeys(rb)
-	if strings.Join(ka, "\n") != strings.Join(kb, "\n") {
+	hasErr := false
+	for _, x := range append(append([]res{}, ra...), rb...) {
+		if x.Err != "" {
+			hasErr = true
+		}
+	}
+	if hasErr {
+		// an alignment error was reported (accepted or reported by checkResults above): the statement only fixes the
+		// result set "when no error occurs"; what was delivered before the error depends on the schedule
+		c.Count("phase:run-with-reported-error")
+	} else if strings.Join(ka, "\n") != strings.Join(kb, "\n") {
 		c.Failf("result-set-depends-on-workers", "cpus=1 and cpus=%d give different result sets:\n%s\n---\n%s", cpusB, strings.Join(ka, "\n"), strings.Join(kb, "\n"))
 	}
 	if snapshot(orfs) != so || snapshot(seqs) != ss {
@@ -588,11 +598,6 @@ func runNoRef(c *mon.Case) {
 	c.Input(pc)
 	_, seqs := pc.bags()
 	ss := snapshot(seqs)
-	orf, err := seqs.LongestORF(pc.Reverse)
-	if err != nil {
-		c.Failf("noref:LongestORF-error", "%v", err)
-		return
-	}
 	// the reference must be a longest ORF of the set
 	global := -1
 	for _, s := range pc.Seqs {
@@ -605,6 +610,19 @@ func runNoRef(c *mon.Case) {
 				global = m
 			}
 		}
+	}
+	orf, err := seqs.LongestORF(pc.Reverse)
+	if global < 0 {
+		// every copy lost its in-frame stop by mutation: there is no ORF at all, an error is the right answer
+		if err == nil {
+			c.Failf("SeqBag.LongestORF:found-where-none-exists", "returned %s although no sequence holds an ORF", orf.Sequence())
+		}
+		c.Count("noref:no-orf-in-the-set")
+		return
+	}
+	if err != nil {
+		c.Failf("noref:LongestORF-error", "%v although a sequence holds an ORF of length %d", err, global)
+		return
 	}
 	if orf.Length() != global {
 		c.Failf("SeqBag.LongestORF:not-the-longest", "reference of length %d, a sequence holds an ORF of length %d", orf.Length(), global)
